@@ -33,6 +33,11 @@ class Verdict:
                 'witness': self.witness, 'replay': self.replay}
 
 
+ENGINE_ASSUMPTION = ('executor: a symbolic integer is an `int` subclass (so that isinstance(step, int) takes the real branch); builtin range() over it is refused outside '
+                     'declared loops and operator.index() returns it unchanged, other C-level consumers of its value (sequence repetition, slicing a Python list) '
+                     'are not guarded - none occurs in the functions under contract; unknown torch operations raise and leave the obligation undecided')
+
+
 class Obligation:
     def __init__(self, oid, kind, function, check, props, deciding=True, clause='', bounded=False, expect='proved'):
         self.id = oid
@@ -333,7 +338,7 @@ def run_check(prop, module, tier, seed):
         coverage['rule'] = spec.get('rule', '')
     ev = {
         'property_id': prop, 'tier': tier, 'seed': seed, 'level': level, 'coverage': coverage,
-        'assumptions': spec.get('assumptions', []), 'wall_s': round(time.time() - t0, 2),
+        'assumptions': list(spec.get('assumptions', [])) + [ENGINE_ASSUMPTION], 'wall_s': round(time.time() - t0, 2),
         'violations': len(violations),
         'obligation_records': jsonable(records),
     }
